@@ -216,6 +216,17 @@ class C13(InputProp):
                 elif i != ref:
                     viol.append({"sig": "id-varies:%s:%s" % (which, vn), "msg": "collection id %s under variant %s, %s canonical" % (i, vn, ref)})
             ids[which] = ref
+            # wiki URLs that differ in one component (port, user info, host, path, scheme) are different wikis
+            urls = ["http://wiki.example/w/", "http://wiki.example:8080/w/", "http://wiki.example:8081/w/", "http://alice@wiki.example/w/",
+                    "http://bob@wiki.example/w/", "http://alice:pw@wiki.example/w/", "https://wiki.example/w/", "http://wiki.example/w", "http://wiki.example/w/x/",
+                    "http://wiki2.example/w/", "http://wiki.example/w/?a=1", "http://wiki.example/w/#f"]
+            seen_ids = {}
+            for u in urls:
+                i = self.cid(dict(base, base_url=u, metabook=s), which)
+                if i in seen_ids:
+                    viol.append({"sig": "id-ignores:%s:base_url-component" % which, "msg": "wiki URLs %r and %r get the same collection id %s" % (seen_ids[i], u, i)})
+                    break
+                seen_ids[i] = u
             # single-field mutations of the request must change the id
             for k in COORDS:
                 for newv in (COORDS[k] + "x", None):
